@@ -79,7 +79,9 @@ Fixpoint mem_str (s : string) (l : list string) : bool :=
 
 (* ---- what the code reads from the decoded JOSE header map ---- *)
 Inductive jv := JAbsent | JOther | JS (s : string) | JB (b : bool).
-Record hview := { h_alg : jv; h_kid : jv; h_b64 : jv; h_typ : jv; h_cty : jv }.
+(* h_canon: the bytes json.Marshal gives back for the decoded header map (sorted members, no spacing) — what
+   jose.DefaultSigningInputVerifier signs/verifies instead of the received header bytes *)
+Record hview := { h_alg : jv; h_kid : jv; h_b64 : jv; h_typ : jv; h_cty : jv; h_canon : list N }.
 
 (* ---- keys and the ideal signature ---- *)
 Record pkey := { pk_fam : fam; pk_repr : repr; pk_id : N }.
@@ -112,7 +114,17 @@ Definition resolve_docs (ds : list (string * list vmeth)) (d f : string) : optio
   end.
 
 Inductive variant := AsIs | Fixed.
-Inductive vcfg := VBasic | VSingle (k : pkey) | VUnsecured.
+(* VBasic = jwt.NewVerifier(resolver); VSingle k = jwt.GetVerifier(k); VUnsecured = jwt.UnsecuredJWTVerifier();
+   VFixed a k = jwt.NewEd25519Verifier(k) (a = "EdDSA") / jwt.NewRS256Verifier(k) (a = "RS256") (jwt_support.go);
+   VDefault k = jose.DefaultSigningInputVerifier over a function that verifies with key k by the key's own
+   procedure and never looks at alg (as pkg/didcomm middleware uses it for from_prior) *)
+Inductive vcfg := VBasic | VSingle (k : pkey) | VUnsecured | VFixed (a : string) (k : pkey) | VDefault (k : pkey).
+(* the procedure the crypto service verifies with for a public key handle of the family (tinkcrypto) *)
+Definition default_proc (f : fam) : option sproc :=
+  match f with
+  | FEd25519 => Some PEd | FP256 => Some (PEc H256) | FP384 => Some (PEc H384) | FP521 => Some (PEc H512)
+  | FSecp256k1 => Some (PEc H256) | FRSA => None
+  end.
 Inductive vres := VOk | VFail | VCrash.
 Inductive stage := StSplit | StHdr | StPay | StSigIn | StSigDec | StVerif | StJwtHdr | StClaims.
 Inductive out := Accept (h : hview) (payload : list N) | Reject (st : stage) | Crash.
@@ -136,6 +148,18 @@ Fixpoint single_alg (t : list (fam * string)) (f : fam) : option string :=
 Definition starts_brace (tok : list N) : bool := match tok with c :: _ => c =? 123 | [] => false end.
 Definition jv_absent (j : jv) : bool := match j with JAbsent => true | _ => false end.
 Definition is_nil (l : list N) : bool := match l with [] => true | _ => false end.
+
+(* ---- the published meaning of the algorithm names (RFC 7518 s3.1, RFC 8037, RFC 8812; the implementation
+        spells ECDSA P-521/SHA-512 "ES521") ---- *)
+Definition alg_spec (a : string) : option (fam * sproc) :=
+  if String.eqb a "EdDSA" then Some (FEd25519, PEd)
+  else if String.eqb a "ES256" then Some (FP256, PEc H256)
+  else if String.eqb a "ES384" then Some (FP384, PEc H384)
+  else if String.eqb a "ES521" then Some (FP521, PEc H512)
+  else if String.eqb a "ES256K" then Some (FSecp256k1, PEc H256)
+  else if String.eqb a "PS256" then Some (FRSA, PPss)
+  else if String.eqb a "RS256" then Some (FRSA, PPkcs)
+  else None.
 
 Section Verify.
   (* third-party JSON decoding of the header bytes into jose.Headers, projected on the members the code reads *)
@@ -191,11 +215,30 @@ Section Verify.
     | _ => VFail
     end.
 
-  Definition verify (v : variant) (c : vcfg) (h : hview) (msg sg : list N) : vres :=
+  (* jwt.JoseEd25519Verifier / jwt.RS256Verifier: alg must be the verifier's, the key is the configured one *)
+  Definition verify_fixed (a : string) (k : pkey) (h : hview) (msg sg : list N) : vres :=
+    match h_alg h, alg_spec a, sig_meaning sg with
+    | JS alg, Some (f, p), SBy kid p' m =>
+        if String.eqb alg a && fam_eqb f (pk_fam k) && (kid =? pk_id k) && sproc_eqb p p' && leqb m msg then VOk else VFail
+    | _, _, _ => VFail
+    end.
+
+  (* jose.DefaultSigningInputVerifier: the signing input handed over by parseCompacted is ignored and rebuilt from
+     the RE-MARSHALLED header (msgc); the wrapped function checks the signature with the key, whatever alg says *)
+  Definition verify_default (k : pkey) (msgc : option (list N)) (sg : list N) : vres :=
+    match msgc, default_proc (pk_fam k), sig_meaning sg with
+    | Some mc, Some p, SBy kid p' m =>
+        if (kid =? pk_id k) && sproc_eqb p p' && leqb m mc then VOk else VFail
+    | _, _, _ => VFail
+    end.
+
+  Definition verify (v : variant) (c : vcfg) (h : hview) (msg : list N) (msgc : option (list N)) (sg : list N) : vres :=
     match c with
     | VBasic => verify_basic v h msg sg
     | VSingle k => verify_single v k h msg sg
     | VUnsecured => verify_unsecured h sg
+    | VFixed a k => verify_fixed a k h msg sg
+    | VDefault k => verify_default k msgc sg
     end.
 
   (* parseCompactedPayload: a non-empty detached payload wins; otherwise the segment is decoded and (since
@@ -242,7 +285,7 @@ Section Verify.
                     match b64dec sseg with
                     | None => Reject StSigDec
                     | Some sg =>
-                      match verify v c h msg sg with
+                      match verify v c h msg (signing_input h (b64enc (h_canon h)) payload) sg with
                       | VOk => Accept h payload
                       | VFail => Reject StVerif
                       | VCrash => Crash
@@ -279,14 +322,3 @@ Section Verify.
     end.
 End Verify.
 
-(* ---- the published meaning of the algorithm names (RFC 7518 s3.1, RFC 8037, RFC 8812; the implementation
-        spells ECDSA P-521/SHA-512 "ES521") ---- *)
-Definition alg_spec (a : string) : option (fam * sproc) :=
-  if String.eqb a "EdDSA" then Some (FEd25519, PEd)
-  else if String.eqb a "ES256" then Some (FP256, PEc H256)
-  else if String.eqb a "ES384" then Some (FP384, PEc H384)
-  else if String.eqb a "ES521" then Some (FP521, PEc H512)
-  else if String.eqb a "ES256K" then Some (FSecp256k1, PEc H256)
-  else if String.eqb a "PS256" then Some (FRSA, PPss)
-  else if String.eqb a "RS256" then Some (FRSA, PPkcs)
-  else None.
